@@ -19,6 +19,10 @@ Property theorems only.  Vocabulary (all in `Proofs/SchemaSpec.lean`):
 * `norm env S v` — `v` with every optional float member that is Go-`==` to its default replaced
   by the default (nil and empty containers are already identified in the model).
 * `Terminated t` — `t = []` or `t` starts with a StructEnd head.
+* `TargetOK env S old` — `old` is an admissible decode target: a struct value with one member per
+  declared member whose struct-typed members are again admissible targets; all other members are
+  arbitrary (stale data of a reused target).  The fresh zero struct and every well-typed value
+  of the struct type are admissible (`freshStruct_targetOK`, `WT.targetOK`).
 
 All statements are for every schema, every struct of it, every well-typed value, every reader
 position; nested structs, vectors, byte vectors (SimpleList), maps, fixed arrays, enums and
@@ -29,11 +33,27 @@ open Consts
 
 /-! ## Full-strength statements -/
 
+/-- round trip through `WriteTo` / `ReadFrom` into ANY admissible target (fresh or reused): since
+    `ResetDefault` resets every member, stale content of the target cannot survive -/
+def C03_full_roundtrip_any_target : Prop :=
+  ∀ (env : Env) (rk : String → Nat) (S : String) (v old : Val) (r : Reader) (t : Bytes),
+    WellTyped env rk S v → TargetOK env S old → Terminated t → r.rest = encStruct env S v ++ t →
+    decStruct env S old r = (.ok (norm env S v), r.adv (encStruct env S v).length)
+
 /-- round trip through `WriteTo` / `ReadFrom` into a fresh struct -/
 def C03_full_roundtrip : Prop :=
   ∀ (env : Env) (rk : String → Nat) (S : String) (v : Val) (r : Reader) (t : Bytes),
     WellTyped env rk S v → Terminated t → r.rest = encStruct env S v ++ t →
     decStruct env S (freshStruct env S) r = (.ok (norm env S v), r.adv (encStruct env S v).length)
+
+/-- round trip through `WriteBlock` / `ReadBlock` at any tag, required or optional, into any
+    admissible target, followed by arbitrary bytes -/
+def C03_full_block_any_target : Prop :=
+  ∀ (env : Env) (rk : String → Nat) (S : String) (v old : Val) (tag : Nat) (req : Bool) (r : Reader)
+    (t : Bytes), WellTyped env rk S v → TargetOK env S old → tag < 256 →
+    r.rest = encVar env tag req (.struct S) none v ++ t →
+    decVar env (decFuel env r) tag req (.struct S) old r
+      = (.ok (norm env S v), r.adv (encVar env tag req (.struct S) none v).length)
 
 /-- round trip through `WriteBlock` / `ReadBlock` at any tag, required or optional, followed by
     arbitrary bytes -/
@@ -52,22 +72,42 @@ def C03_full_ref : Prop :=
 
 /-! ## Theorems -/
 
-/-- **C03_roundtrip.** Encoding a well-typed value of any struct type of any well-formed schema
-    and decoding the bytes into a fresh struct yields the (normalised) value; the reader stops
-    exactly behind the encoding.  Holds at any reader position and with any `Terminated`
-    continuation. -/
-theorem C03_roundtrip : C03_full_roundtrip :=
-  fun env rk S v r t hW ht h => decStruct_rt env rk S v r t hW ht h
+/-- **C03_roundtrip_any_target.** Encoding a well-typed value of any struct type of any
+    well-formed schema and decoding the bytes into ANY admissible target — fresh, or reused and
+    holding arbitrary stale data — yields the (normalised) value; the reader stops exactly behind
+    the encoding.  Holds at any reader position and with any `Terminated` continuation. -/
+theorem C03_roundtrip_any_target : C03_full_roundtrip_any_target :=
+  fun env rk S v old r t hW ho ht h => decStruct_rt_target env rk S v old r t hW ho ht h
+
+/-- in particular a target holding any previous well-typed value of the struct type -/
+theorem C03_roundtrip_reused (env : Env) (rk : String → Nat) (S : String) (v prev : Val)
+    (r : Reader) (t : Bytes) (hW : WellTyped env rk S v) (hp : WT env (.struct S) prev)
+    (ht : Terminated t) (h : r.rest = encStruct env S v ++ t) :
+    decStruct env S prev r = (.ok (norm env S v), r.adv (encStruct env S v).length) :=
+  C03_roundtrip_any_target env rk S v prev r t hW (WT.targetOK env prev S hp) ht h
+
+/-- **C03_roundtrip** (fresh target): corollary of `C03_roundtrip_any_target`. -/
+theorem C03_roundtrip : C03_full_roundtrip := fun env rk S v r t hW ht h =>
+  match WT_struct_inv hW.2 with
+  | ⟨_, _, hfs, _, _⟩ =>
+    C03_roundtrip_any_target env rk S v _ r t hW (freshStruct_targetOK hW.1 hfs) ht h
 
 /-- what remains after the read is exactly what followed the encoding -/
 theorem C03_roundtrip_position (env : Env) (S : String) (v : Val) (r : Reader) (t : Bytes)
     (h : r.rest = encStruct env S v ++ t) : (r.adv (encStruct env S v).length).rest = t :=
   r.rest_adv _ t h
 
-/-- **C03_block.** The same through `WriteBlock`/`ReadBlock` (what the generator emits for a
-    struct-typed member, element, map value, argument or return value) at any tag. -/
-theorem C03_block : C03_full_block :=
-  fun env rk S v tag req r t hW htag h => block_rt env rk S v tag req r t hW htag h
+/-- **C03_block_any_target.** The same through `WriteBlock`/`ReadBlock` (what the generator emits
+    for a struct-typed member, element, map value, argument or return value) at any tag, into any
+    admissible target. -/
+theorem C03_block_any_target : C03_full_block_any_target :=
+  fun env rk S v old tag req r t hW ho htag h => block_rt_target env rk S v old tag req r t hW ho htag h
+
+/-- **C03_block** (fresh target): corollary of `C03_block_any_target`. -/
+theorem C03_block : C03_full_block := fun env rk S v tag req r t hW htag h =>
+  match WT_struct_inv hW.2 with
+  | ⟨_, _, hfs, _, _⟩ =>
+    C03_block_any_target env rk S v _ tag req r t hW (freshStruct_targetOK hW.1 hfs) htag h
 
 /-- **C03_ref** (= C03_wf): the bytes produced by `WriteTo` are accepted by the strict reference
     decoder — every member under its declared tag and an admissible wire type, at most once, in
@@ -180,6 +220,23 @@ open C03Example in
 example : WellTyped env rk "Outer" v := ⟨C03_example_env_wf, C03_example_v_wt⟩
 open C03Example in
 example : WellTyped env rk "Tree" tree := ⟨C03_example_env_wf, C03_example_tree_wt⟩
+
+open C03Example in
+/-- a reused target full of stale data (members of the wrong Go type included) is admissible:
+    only the by-value struct skeleton matters -/
+example : TargetOK env "Outer" (.struct [.struct [.str [byte 9], .int 3, .list [], .map []],
+    .list [.int 1, .int 2], .int 5, .list [], .str [], .list [.int 77], .int 42]) := by
+  simp [TargetOK, Ready, ReadyMembers, env, Env.find]
+
+open C03Example in
+/-- decoding into that stale target gives the same result as into a fresh one -/
+example : (decStruct env "Outer" (.struct [.struct [.str [byte 9], .int 3, .list [], .map []],
+      .list [.int 1, .int 2], .int 5, .list [], .str [], .list [.int 77], .int 42])
+    (Reader.mk0 (encStruct env "Outer" v))).1 = .ok (norm env "Outer" v) := by
+  have h : (Reader.mk0 (encStruct env "Outer" v)).rest = encStruct env "Outer" v ++ [] := by
+    simp [Reader.mk0, Reader.rest]
+  rw [C03_roundtrip_any_target env rk "Outer" v _ _ [] ⟨C03_example_env_wf, C03_example_v_wt⟩
+    (by simp [TargetOK, Ready, ReadyMembers, env, Env.find]) (Or.inl rfl) h]
 
 example : Terminated [] := Or.inl rfl
 example : Terminated (writeHead tyStructEnd 0 ++ [byte 1, byte 2]) :=
